@@ -1,7 +1,7 @@
 """Per-property claim texts for MANIFEST.json (kept next to the obligations registry)."""
 
 ENGINES = [
-    dict(name="jsym", path="jsym/", serves_properties=["C01", "C02", "C05", "C06", "C07"],
+    dict(name="jsym", path="jsym/", serves_properties=["C01", "C02", "C03", "C04", "C05", "C06", "C07", "C09", "C12"],
          kind_free_text="own concolic executor on z3: proxy objects for ints/reals/bools, every branch decided by the solver, replay-based DFS to exhaustion, prefix-sharded over 16 processes; real JADE code runs natively"),
 ]
 
@@ -35,5 +35,28 @@ CLAIMS = {
         technique="bounded symbolic execution of the real code with z3 (jsym), exhaustive path exploration"),
 }
 
+_HS = ("H-submit: whole submissions of the real CLI (jade submit-jobs -> stub sbatch -> real jade-internal run-jobs on "
+       "virtual nodes -> model job processes -> real jade try-submit-jobs) in a scratch world with real files; DAG shape, "
+       "batch size, max_nodes, flags, exit codes and the order of batch starts / job exits / node polls are solver "
+       "variables and every feasible schedule of the bounded configuration is explored to quiescence (coarse granularity: "
+       "a node polls after an exit, submitter rounds are atomic); ")
+_HN = ("World model stubs: subprocess (sbatch/squeue/scancel model, jade commands run in-process, model job processes), "
+       "time, socket.gethostname, filelock.SoftFileLock (marker lock on the same files), uuid, logging configuration. "
+       "Bounds: N<=3 jobs (4 in thorough for a few shapes), <=2 groups, exit codes {0,1}; coarse scheduling granularity.")
+for _p, _t in {
+    "C01": "and in H-submit: every job launched at most once, in at most one sbatch'ed batch config, batch files never reused, each non-canceled job ran exactly once at completion. ",
+    "C02": "and in H-submit: at every Popen of a job command every configured blocker has a result row on disk. ",
+    "C05": "and in H-submit: at every quiescent incomplete point a user try-submit-jobs submits a batch or completes; completion observed once, results.json before the flag, no sbatch afterwards, later commands are no-ops. ",
+    "C06": "and in H-submit: the scheduler model's count of queued+running batches after every sbatch <= max_nodes, live job processes per node <= processes-per-node (or CPU count). ",
+    "C07": "and in H-submit: the same on the files actually written (config_batch_k.json, #SBATCH lines, run script options), plus dry-run: same first-round batch files as the non-dry run, no sbatch, no launch. ",
+}.items():
+    CLAIMS[_p]["text"] = CLAIMS[_p]["text"] + " " + _HS + _t
+    CLAIMS[_p]["note"] = CLAIMS[_p]["note"] + " " + _HN
+_T = "bounded symbolic execution of the real code with z3 (jsym): solver-chosen schedules and inputs, exhaustive path exploration"
+CLAIMS["C03"] = dict(text=_HS + "at completion results.json (read through ResultsSummary) has exactly one entry per job, no missing jobs, and every classification equals a reference topological evaluation of the DAG from the chosen exit codes; includes local mode, 2 groups, time-based batching.", note=_HN, technique=_T)
+CLAIMS["C04"] = dict(text=_HS + "a job is canceled (status canceled, return code != 0, zero launches) exactly when the reference fix-point says so, for failing job and dependants in the same batch, the next batch, or rounds later (batch size 1, max_nodes 1).", note=_HN, technique=_T)
+CLAIMS["C09"] = dict(text=_HS + "after every release of the cluster lock the status is read through Cluster.deserialize and the property's clauses are asserted verbatim (counter order, recounts, done => result row, blockers empty once submitted, versions increase with every change, states/counters/blockers monotone, complete stays complete).", note=_HN, technique=_T)
+CLAIMS["C12"] = dict(text=_HS + "with solver-chosen lost batches (sbatch failing on every retry, a pending batch cancelled by the scheduler, a running node killed at any scheduler step): after the documented recovery the submission is complete, results hold exactly the rows recorded before the loss with the real exit codes, missing_jobs = all other jobs, canceled jobs never ran, no job started without its blockers' rows.", note=_HN + " kill -9 of a node is modelled by unwinding its thread and restoring a file-system snapshot taken at the kill point.", technique=_T)
+
 _TODO = "check not built yet in this session (planned in DESIGN.md section 6); not claimed until it exists"
-NOT_APPLICABLE = {p: _TODO for p in ["C03", "C04", "C08", "C09", "C10", "C11", "C12", "C13", "C14", "C15", "C16", "C17", "C18", "C19", "C20"]}
+NOT_APPLICABLE = {p: _TODO for p in ["C08", "C10", "C11", "C13", "C14", "C15", "C16", "C17", "C18", "C19", "C20"]}
